@@ -364,8 +364,22 @@ def inline_call(caller_raw, b, helper_raw):
         caller_raw["blocks"].append(nb)
     # a function item passed as an argument (`helper(.., register_x::<C>)`) is a constant: where the helper's body moves
     # that parameter on (into a call), the constant itself is what flows - provided the helper never re-assigns the parameter
+    def _reified(a):
+        """`f as fn(..) -> ..` (a function item coerced to a function pointer, assigned once): the function item"""
+        p_ = mir.op_place(a)
+        if p_ is None or p_["p"]:
+            return None
+        defs_ = [st for nb in caller_raw["blocks"][:boff] for st in nb["stmts"] if st["k"] == "assign" and st["place"]["l"] == p_["l"]]
+        if len(defs_) != 1 or defs_[0]["place"]["p"] or any(nb["term"]["k"] == "call" and nb["term"]["dest"]["l"] == p_["l"] for nb in caller_raw["blocks"][:boff]):
+            return None
+        c_ = defs_[0].get("rv", {}).get("cast")
+        if not c_ or "ReifyFnPointer" not in str(c_.get("kind")) or not isinstance(c_.get("op"), dict):
+            return None
+        k_ = c_["op"].get("const")
+        return c_["op"] if isinstance(k_, dict) and k_.get("fn") else None
     queue_ = [(loff + 1 + i, a) for i, a in enumerate(t["args"])
               if i + 1 <= helper_raw["arg_count"] and isinstance(a, dict) and isinstance(a.get("const"), dict) and a["const"].get("fn")]
+    queue_ += [(loff + 1 + i, _reified(a)) for i, a in enumerate(t["args"]) if i + 1 <= helper_raw["arg_count"] and isinstance(a, dict) and _reified(a) is not None]
     done_ = set()
     while queue_:
         pl, a = queue_.pop()
@@ -476,6 +490,17 @@ def split_chain_loops(raws, facts):
             if fr is None or not fr["path"].endswith("iterator::Iterator::chain") or t["dest"]["p"]:
                 continue
             c = t["dest"]["l"]
+            # (handed on by whole-value moves: the return place of an inlined helper that built the chain)
+            for _ in range(4):
+                mv_ = [st for nb_ in B for st in nb_["stmts"] if st["k"] == "assign" and "use" in st.get("rv", {})
+                       and mir.op_place(st["rv"]["use"]) == {"l": c, "p": []} and not st["place"]["p"]]
+                if len(mv_) != 1:
+                    break
+                y_ = mv_[0]["place"]["l"]
+                if sum(1 for nb_ in B for st in nb_["stmts"] if st["k"] == "assign" and st["place"]["l"] == y_) != 1 \
+                        or any(nb_["term"]["k"] == "call" and nb_["term"]["dest"]["l"] == y_ for nb_ in B):
+                    break
+                c = y_
             # the iterator the loop pulls from: `it = into_iter(move c)` (or c itself)
             it = c
             into_b = None
@@ -613,6 +638,195 @@ def split_chain_loops(raws, facts):
             n += 1
             break       # block indices of this body changed: one chain per body and pass
     return n
+
+
+def peel_map_loops(raws, facts, helpers=()):
+    """`for x in iter.map(f) { body }` is rewritten (in the view) into `for y in iter { let x = f(y); body }`: `Map::next` is
+    `inner.next().map(f)` - `f` runs once per element, right when the loop pulls it. The `Iterator::map` call becomes a move of
+    the inner iterator and the loop's `next()` is followed by the `match` that `Map::next` is: `None => None`,
+    `Some(y) => Some(f(y))`, with a closure `f` inlined (a function item stays a call; a new helper is inlined later like any
+    other). Only when the adapter feeds exactly one `for`-style loop in the same function. Returns the number of loops peeled."""
+    n = 0
+    cur = mir.Program(dict(facts, bodies=list(raws.values())))
+    for path, raw in list(raws.items()):
+        body = cur.by_path.get(path)
+        if body is None:
+            continue
+        B = raw["blocks"]
+        L = raw["locals"]
+        for cb in range(len(B)):
+            t = B[cb]["term"]
+            if t["k"] != "call" or B[cb]["cleanup"] or len(t.get("args", [])) != 2 or t.get("t") is None or t["dest"]["p"]:
+                continue
+            fr = op_fn(t["func"])
+            if fr is None or not fr["path"].endswith("iterator::Iterator::map"):
+                continue
+            m = t["dest"]["l"]
+            # f: a function item of one parameter, or a closure built here
+            map_fn = None
+            map_clo = None
+            fi_ = op_fn(t["args"][1])
+            if fi_ is not None:
+                # a pinned function in a `map` adapter is an idiom the loop rules read directly (`iter().map(ReactorHandle::sys_command)`);
+                # only a *new* function (which the view is about to inline) hides what the loop's element is
+                tgt_ = cur.resolve_local(fi_)
+                if tgt_ is None or tgt_.arg_count != 1 or tgt_.path not in helpers:
+                    continue
+                map_fn = t["args"][1]
+            else:
+                mos_ = mir.origins(body, t["args"][1])
+                if len(mos_) == 1:
+                    mo_ = next(iter(mos_))
+                    if mo_[0] == "agg" and len(mo_) == 3:
+                        mag_ = B[mo_[1]]["stmts"][mo_[2]]["rv"].get("agg")
+                        if mag_ and mag_.get("kind") == "closure" and mag_.get("closure") in raws and raws[mag_["closure"]]["arg_count"] == 2 \
+                                and len(raws[mag_["closure"]]["blocks"]) < 40 and mir.op_place(t["args"][1]) is not None:
+                            map_clo = (raws[mag_["closure"]], mir.op_place(t["args"][1]))
+            if map_fn is None and map_clo is None:
+                continue
+            # every use of the adapter: one `into_iter(move m)` (possibly after whole-value moves: an inlined helper's return)
+            def _uses(l_):
+                stm_, calls_ = [], []
+                for b2 in range(len(B)):
+                    t2 = B[b2]["term"]
+                    for st in B[b2]["stmts"]:
+                        if st["k"] == "assign" and _mentions_local(st.get("rv"), l_):
+                            stm_.append(st)
+                    if t2["k"] == "call":
+                        for a_ in t2.get("args", []):
+                            p_ = mir.op_place(a_)
+                            if p_ is not None and p_["l"] == l_:
+                                calls_.append((b2, t2, p_))
+                    elif t2["k"] in ("switch", "drop") and _mentions_local({k_: v_ for k_, v_ in t2.items() if k_ in ("op", "place")}, l_):
+                        stm_.append(t2)
+                return stm_, calls_
+            carrier = m
+            moved_through = []
+            for _ in range(4):
+                stm_, calls_ = _uses(carrier)
+                if len(stm_) == 1 and not calls_ and stm_[0].get("k") == "assign" and "use" in stm_[0]["rv"] and not stm_[0]["place"]["p"] \
+                        and mir.op_place(stm_[0]["rv"]["use"]) == {"l": carrier, "p": []} \
+                        and sum(1 for nb_ in B for st_ in nb_["stmts"] if st_["k"] == "assign" and st_["place"]["l"] == stm_[0]["place"]["l"]) == 1 \
+                        and not any(nb_["term"]["k"] == "call" and nb_["term"]["dest"]["l"] == stm_[0]["place"]["l"] for nb_ in B):
+                    moved_through.append(stm_[0]["place"]["l"])
+                    carrier = stm_[0]["place"]["l"]
+                    continue
+                break
+            stm_, calls_ = _uses(carrier)
+            it, into_b = None, None
+            if not stm_ and len(calls_) == 1:
+                b2, t2, p_ = calls_[0]
+                f2 = op_fn(t2["func"])
+                if f2 is not None and f2["path"].endswith("IntoIterator::into_iter") and not p_["p"] and not t2["dest"]["p"] and len(t2["args"]) == 1:
+                    it, into_b = t2["dest"]["l"], b2
+            if it is None:
+                continue
+            sdef = {}
+            for b2 in range(len(B)):
+                for st in B[b2]["stmts"]:
+                    if st["k"] == "assign" and not st["place"]["p"]:
+                        sdef.setdefault(st["place"]["l"], []).append(st.get("rv", {}))
+                t2 = B[b2]["term"]
+                if t2["k"] == "call" and not t2["dest"]["p"]:
+                    sdef.setdefault(t2["dest"]["l"], []).append({"call": True})
+
+            def root(l, depth=0):
+                ds = sdef.get(l, [])
+                if depth > 8 or len(ds) != 1:
+                    return l
+                rv = ds[0]
+                if "ref" in rv and all(e == "deref" for e in rv["ref"]["p"]):
+                    return root(rv["ref"]["l"], depth + 1)
+                if "use" in rv:
+                    p_ = mir.op_place(rv["use"])
+                    if p_ is not None and not p_["p"]:
+                        return root(p_["l"], depth + 1)
+                return l
+            nbs = []
+            other_use = False
+            for b2 in range(len(B)):
+                t2 = B[b2]["term"]
+                if t2["k"] != "call" or B[b2]["cleanup"]:
+                    continue
+                f2 = op_fn(t2["func"])
+                for a_ in t2.get("args", []):
+                    p_ = mir.op_place(a_)
+                    if p_ is None or p_["p"] or b2 == into_b:
+                        continue
+                    if root(p_["l"]) == it:
+                        if f2 is not None and f2["path"].endswith("iterator::Iterator::next") and len(t2["args"]) == 1 and not t2["dest"]["p"] and t2.get("t") is not None:
+                            nbs.append(b2)
+                        else:
+                            other_use = True
+            if len(nbs) != 1 or other_use:
+                continue
+            nb = nbs[0]
+            if not any(nb in lbody for (h, lbody, backs) in body.loops()):
+                continue
+            nt_ = B[nb]["term"]
+            d = nt_["dest"]["l"]
+            exit_t = nt_["t"]
+            line = nt_.get("line")
+
+            def new_local(ty, name=None):
+                L.append({"ty": ty, "name": name})
+                return len(L) - 1
+            pa = mir.op_place(t["args"][0])
+            inner_ty = L[pa["l"]]["ty"] if pa is not None and not pa["p"] else "desugared::Iter"
+            L[m] = dict(L[m], ty=inner_ty)
+            L[it] = dict(L[it], ty=inner_ty)
+            for l_ in moved_through:
+                L[l_] = dict(L[l_], ty=inner_ty)
+            l_o = new_local("core::option::Option<desugared::Item>")
+            l_d = new_local("isize")
+            l_x = new_local("desugared::Item")
+            l_r = new_local("desugared::Mapped")
+            base = len(B)
+            S, N, P, W, U = base, base + 1, base + 2, base + 3, base + 4
+            # the adapter is the inner iterator
+            B[cb]["stmts"] = list(B[cb]["stmts"]) + [{"k": "assign", "place": {"l": m, "p": []}, "rv": {"use": copy.deepcopy(t["args"][0])}, "line": t.get("line"), "exp": None, "inl": True}]
+            B[cb]["term"] = {"k": "goto", "t": t["t"], "line": t.get("line"), "exp": None, "desugared": "map-loop"}
+            nt_["dest"] = {"l": l_o, "p": []}
+            nt_["t"] = S
+            B.append({"cleanup": False, "stmts": [{"k": "assign", "place": {"l": l_d, "p": []}, "rv": {"discr": {"l": l_o, "p": []}}, "line": line, "exp": None, "inl": True}],
+                      "term": {"k": "switch", "op": {"move": {"l": l_d, "p": []}}, "targets": [[0, N], [1, P]], "otherwise": U, "line": line, "exp": None}})
+            B.append({"cleanup": False, "stmts": [{"k": "assign", "place": {"l": d, "p": []}, "rv": {"agg": {"kind": "adt", "adt": "core::option::Option", "variant": 0, "vname": "None", "fields": [], "ops": []}},
+                                                    "line": line, "exp": None, "inl": True}],
+                      "term": {"k": "goto", "t": exit_t, "line": line, "exp": None}})
+            some_x = {"move": {"l": l_o, "p": [{"downcast": 1, "name": "Some"}, {"f": 0, "ty": "desugared::Item", "name": "0", "variant": "Some", "adt": "core::option::Option"}]}}
+            pstm = [{"k": "assign", "place": {"l": l_x, "p": []}, "rv": {"use": some_x}, "line": line, "exp": None, "inl": True}]
+            if map_clo is not None:
+                l_mref = new_local("&mut closure")
+                mcp = map_clo[1]
+                pstm.append({"k": "assign", "place": {"l": l_mref, "p": []}, "rv": {"ref": {"l": mcp["l"], "p": list(mcp["p"])}, "mut": True}, "line": line, "exp": None, "inl": True})
+                B.append({"cleanup": False, "stmts": pstm,
+                          "term": {"k": "call", "func": {"const": {"fn": {"path": map_clo[0]["path"], "resolved": map_clo[0]["path"], "args": []}, "ty": "fn"}},
+                                   "args": [{"move": {"l": l_mref, "p": []}}, {"move": {"l": l_x, "p": []}}],
+                                   "dest": {"l": l_r, "p": []}, "t": W, "unwind": None, "line": line, "exp": None}})
+            else:
+                B.append({"cleanup": False, "stmts": pstm,
+                          "term": {"k": "call", "func": copy.deepcopy(map_fn), "args": [{"move": {"l": l_x, "p": []}}],
+                                   "dest": {"l": l_r, "p": []}, "t": W, "unwind": None, "line": line, "exp": None}})
+            B.append({"cleanup": False, "stmts": [{"k": "assign", "place": {"l": d, "p": []}, "rv": {"agg": {"kind": "adt", "adt": "core::option::Option", "variant": 1, "vname": "Some", "fields": ["0"],
+                                                                                                       "ops": [{"move": {"l": l_r, "p": []}}]}}, "line": line, "exp": None, "inl": True}],
+                      "term": {"k": "goto", "t": exit_t, "line": line, "exp": None}})
+            B.append({"cleanup": False, "stmts": [], "term": {"k": "unreachable", "line": line, "exp": None}})
+            raw.setdefault("thread_seeds", []).extend([d, l_o])
+            if map_clo is not None:
+                inline_call(raw, P, copy.deepcopy(map_clo[0]))
+            n += 1
+            break       # defs of this body changed: one adapter per body and pass
+    return n
+
+
+def _mentions_local(x, l):
+    if isinstance(x, dict):
+        if "l" in x and "p" in x and x["l"] == l:
+            return True
+        return any(_mentions_local(v, l) for v in x.values())
+    if isinstance(x, list):
+        return any(_mentions_local(v, l) for v in x)
+    return False
 
 
 def desugar_extend(raws, facts):
@@ -2007,6 +2221,56 @@ def specialise_const_generics(facts):
     return dict(facts, bodies=list(out.values())), sorted(made.values())
 
 
+def _bundled_abort_helpers(prog, helpers, adts):
+    """role: a *new* function that the runner calls with the world and one by-value private record holding exactly one value of
+    the runner's setup type and one of its cleanup type (other parameters / fields: ids and labels only) is the abort helper
+    with its parameters bundled (`BufferedSyscommand::abort(self, world)` for `cleanup_on_abort(world, setup, cleanup)`). It
+    keeps its role: it is not inlined, and the view gives it the flat parameter list back (world first). Returns
+    {path: (flat signature for un-bundling, canonical signature)}."""
+    import anchors as _A
+    try:
+        r = _A.runner(prog)
+    except Exception:
+        return {}
+    st, ct = r.local_ty(3), r.local_ty(4)
+    idish = lambda t_: t_.endswith(("::SystemCommand", "entity::Entity")) or t_.replace("'static ", "").replace("'_ ", "") in ("&str", "bool", "usize", "u32", "u8", "u64", "i32")
+    # (only when the flat form is gone: a tree that still has `cleanup_on_abort(world, setup, cleanup)` has its abort helper)
+    for b, t, fr in r.iter_calls():
+        h = prog.resolve_local(fr) if fr is not None else None
+        if h is not None and h.path != r.path and h.arg_count >= 3:
+            tys_ = [h.local_ty(i) for i in range(1, h.arg_count + 1)]
+            if "World" in tys_[0] and tys_.count(st) == 1 and tys_.count(ct) == 1:
+                return {}
+    def _consumes(h_, ty_):
+        # the helper runs the carrier: calls a method of the carrier type
+        for _, _, fr_ in h_.iter_calls():
+            cb_ = prog.resolve_local(fr_) if fr_ is not None else None
+            if cb_ is not None and re.sub(r"<.*$", "", cb_.raw.get("impl_self") or "") == re.sub(r"<.*$", "", ty_):
+                return True
+        return False
+    out = {}
+    for b, t, fr in r.iter_calls():
+        h = prog.resolve_local(fr) if fr is not None else None
+        if h is None or h.path not in helpers or h.path in out or h.path == r.path:
+            continue
+        cs = [h.local_ty(i) for i in range(1, h.arg_count + 1)]
+        recs = [i for i, c in enumerate(cs) if adts.get(c) is not None and adts[c].get("kind") == "Struct"]
+        if len(recs) != 1 or sum(1 for c in cs if "World" in c and c.startswith("&mut")) != 1:
+            continue
+        k = recs[0]
+        ftys = [f["ty"] for f in adts[cs[k]]["variants"][0]["fields"]]
+        if ftys.count(st) != 1 or ftys.count(ct) != 1 or len(set(ftys)) != len(ftys):
+            continue
+        if not all(t_ in (st, ct) or idish(t_) for t_ in ftys) or not all(idish(c) or ("World" in c) for i, c in enumerate(cs) if i != k):
+            continue
+        flat = cs[:k] + ftys + cs[k + 1:]
+        if len(set(flat)) != len(flat) or not _consumes(h, st) or not _consumes(h, ct):
+            continue
+        world = [c for c in flat if "World" in c][0]
+        out[h.path] = (flat, [world] + [c for c in flat if c != world])
+    return out
+
+
 def inlined_facts(facts, vocab=None):
     """returns (facts2, info) where facts2 is the helper-inlined view, or (None, info) when there is nothing to inline"""
     vocab = vocab if vocab is not None else load_vocab()
@@ -2022,7 +2286,15 @@ def inlined_facts(facts, vocab=None):
         specialised = ["error: %r" % (e,)]
     prog = mir.Program(facts)
     helpers = new_helpers(prog, vocab)
+    try:
+        bundled_abort = _bundled_abort_helpers(prog, helpers, {a["path"]: a for a in facts.get("adts", [])})
+    except Exception:
+        bundled_abort = {}
+    for p_ in bundled_abort:
+        helpers.pop(p_, None)
     info = {"new_helpers": sorted(mir.strip_generics(p) for p in helpers), "inlined_sites": 0, "dropped": [], "arm_split": []}
+    if bundled_abort:
+        info["bundled_abort_helper"] = sorted(mir.strip_generics(p) for p in bundled_abort)
     if specialised:
         info["const_specialised"] = specialised
     raws = {b["path"]: copy.deepcopy(b) for b in facts["bodies"]}
@@ -2037,12 +2309,16 @@ def inlined_facts(facts, vocab=None):
         info["split_chains"] = split_chain_loops(raws, facts)
     except Exception as e:
         info["split_chains_error"] = repr(e)
+    try:
+        info["peeled_map_loops"] = peel_map_loops(raws, facts, set(helpers))
+    except Exception as e:
+        info["peel_map_loops_error"] = repr(e)
     info["desugared_extend"] = desugar_extend(raws, facts)
     try:
         info["desugared_extend"] += desugar_combinators(raws, facts)
     except Exception as e:       # the view stays without this normalisation
         info["desugar_combinators_error"] = repr(e)
-    if not helpers and not info["arm_split"] and not info["desugared_extend"] and not info.get("split_chains"):
+    if not helpers and not info["arm_split"] and not info["desugared_extend"] and not info.get("split_chains") and not info.get("peeled_map_loops"):
         sigs = load_sigs()
         info["unbundled"] = (unbundle_params(raws, facts, sigs) + permute_params(raws, facts, sigs)) if sigs else []
         if not info["unbundled"]:
@@ -2076,8 +2352,25 @@ def inlined_facts(facts, vocab=None):
                 changed = True
         if not changed:
             break
+    # an adapter that an inlined helper built (`fn reactions(..) -> impl Iterator { list.iter().map(|h| ..) }`) now sits in the
+    # function whose loop it feeds
+    try:
+        info["split_chains"] = info.get("split_chains", 0) + split_chain_loops(raws, facts)
+    except Exception as e:
+        info["split_chains_error"] = repr(e)
+    try:
+        for _ in range(4):
+            n_ = peel_map_loops(raws, facts, set(helpers))
+            info["peeled_map_loops"] = info.get("peeled_map_loops", 0) + n_
+            if not n_:
+                break
+    except Exception as e:
+        info["peel_map_loops_error"] = repr(e)
     sigs = load_sigs()
     info["unbundled"] = (unbundle_params(raws, facts, sigs) + permute_params(raws, facts, sigs)) if sigs else []
+    if bundled_abort:
+        info["unbundled"] += unbundle_params(raws, facts, {strip_generics(p_): v_[0] for p_, v_ in bundled_abort.items()})
+        info["unbundled"] += permute_params(raws, facts, {strip_generics(p_): v_[1] for p_, v_ in bundled_abort.items()})
     try:
         info["wrapped_closures"] = specialise_wrapped_closures(raws, facts)
     except Exception as e:
@@ -2263,6 +2556,36 @@ def thread_variants(raw):
 
     def _forget(facts, l):
         return {k: v for k, v in facts.items() if k != l and not (isinstance(k, tuple) and k[1] == l)}
+    # constants of this body: assigned once, never borrowed mutably, from a variant literal / a constant / another constant local
+    _mut_borrowed = set()
+    for blk_ in blocks:
+        for st_ in blk_["stmts"]:
+            rv_ = st_.get("rv", {}) if st_["k"] == "assign" else {}
+            for key_ in ("ref", "rawptr"):
+                if key_ in rv_ and (rv_.get("mut") or key_ == "rawptr"):
+                    _mut_borrowed.add(rv_[key_]["l"])
+            if st_["k"] == "assign" and st_["place"]["p"]:
+                _mut_borrowed.add(st_["place"]["l"])       # partial write
+    const_locals = set()
+    grew_ = True
+    while grew_:
+        grew_ = False
+        for l_, ds_ in _onedef.items():
+            if l_ in const_locals or l_ in _mut_borrowed or not _single_def(l_) or len(ds_) != 1 or l_ <= raw.get("arg_count", 0):
+                continue
+            rv_ = ds_[0]
+            ok_ = False
+            if "agg" in rv_ and rv_["agg"].get("kind") == "adt" and not (rv_["agg"].get("ops") or []):
+                ok_ = True
+            elif "use" in rv_:
+                if isinstance(rv_["use"].get("const"), dict):
+                    ok_ = True
+                else:
+                    p_ = mir.op_place(rv_["use"])
+                    ok_ = p_ is not None and not p_["p"] and p_["l"] in const_locals
+            if ok_:
+                const_locals.add(l_)
+                grew_ = True
     changed = True
     while changed:
         changed = False
@@ -2430,11 +2753,31 @@ def thread_variants(raw):
 
     # facts are not carried around a loop: a back edge re-enters the header with no facts (otherwise the first iteration
     # would be peeled off and the loop rules would see two loops)
+    loop_assigned = {}      # loop header -> locals (re)defined somewhere in the loop
     try:
         _b = mir.Body(raw, None)
-        back_edges = {(x, h) for (h, blocks_, backs_) in _b.loops() for x in backs_}
+        _loops = list(_b.loops())
+        back_edges = {(x, h) for (h, blocks_, backs_) in _loops for x in backs_}
+        for (h, blocks_, backs_) in _loops:
+            acc_ = loop_assigned.setdefault(h, set())
+            for bi_ in blocks_:
+                for st_ in blocks[bi_]["stmts"]:
+                    if st_["k"] == "assign":
+                        acc_.add(st_["place"]["l"])
+                        rv_ = st_.get("rv", {})
+                        for key_ in ("ref", "rawptr"):
+                            if key_ in rv_ and (rv_.get("mut") or key_ == "rawptr"):
+                                acc_.add(rv_[key_]["l"])
+                    elif st_["k"] not in ("nop", "storage_live", "storage_dead") and isinstance(st_.get("place"), dict):
+                        acc_.add(st_["place"]["l"])
+                t_ = blocks[bi_]["term"]
+                if t_["k"] == "call":
+                    acc_.add(t_["dest"]["l"])
+                elif t_["k"] == "drop" and isinstance(t_.get("place"), dict):
+                    acc_.add(t_["place"]["l"])
     except Exception:
         back_edges = set()
+        loop_assigned = {}
     # a fact is dropped where its local is not mentioned any more (continuations that do not look at the value re-merge)
     def _mentions(x, acc):
         if isinstance(x, dict):
@@ -2522,7 +2865,10 @@ def thread_variants(raw):
                 tgt = dict((v, bb) for v, bb in t["targets"]).get(known, t["otherwise"])
                 # resolved: forget, so the paths re-merge behind the decision - except what is known about the payloads
                 # (`Outer::V(Inner::W)`: the arm still has to read which W it carries)
-                succs.append(("only", tgt, {k_: v_ for k_, v_ in facts.items() if isinstance(k_, tuple)}))
+                # ... and what is known about the constants of this body (a local assigned once, from a variant literal or from
+                # another such local: the same fact on every path that reaches a use, so it separates nothing) - `kind` matched
+                # a second time by the next helper
+                succs.append(("only", tgt, {k_: v_ for k_, v_ in facts.items() if isinstance(k_, tuple) or k_ in const_locals}))
             else:
                 # what an arm learns: the scrutinee `d = discriminant(P)` was computed in this block, so on the edge of value v
                 # the variant of P is v - for `*r` behind a shared reference that is assigned once (the
@@ -2618,9 +2964,13 @@ def thread_variants(raw):
         outs = []
         for s in succs:
             tb, f2 = s[1], s[2]
-            f2 = {} if (b, tb) in back_edges else {l: v for l, v in f2.items()
-                                                   if ((l[1] if isinstance(l, tuple) else l) in relevant or (isinstance(l, tuple) and l[0] == "d"))
-                                                   and ((isinstance(l, tuple) and l[0] == "d") or (l[1] if isinstance(l, tuple) else l) in live_any[tb])}
+            f2 = {l: v for l, v in f2.items()
+                  if ((l[1] if isinstance(l, tuple) else l) in relevant or (isinstance(l, tuple) and l[0] == "d"))
+                  and ((isinstance(l, tuple) and l[0] == "d") or (l[1] if isinstance(l, tuple) else l) in live_any[tb])}
+            if (b, tb) in back_edges or tb in loop_assigned:
+                # into a loop header (from outside or around a back edge) only the constants of the body that are set before the loop are carried (the header keeps
+                # one state per entry state, nothing is peeled, and what was known about them before the loop is known behind it)
+                f2 = {l: v for l, v in f2.items() if not isinstance(l, tuple) and l in const_locals and l not in loop_assigned.get(tb, ())}
             kk = (tb, key(f2))
             if kk not in nodes:
                 if len(nodes) >= MAX_NODES:
